@@ -376,7 +376,7 @@ func trigVals(th *core.Thread, v core.Value, cols []string) []int {
 	for i, col := range cols {
 		x := v.Get(th, core.SuStr(col))
 		if x != nil && x != core.EmptyStr {
-			row[i] = core.ToInt(x)
+			row[i] = decVal(core.ToInt(x))
 		}
 	}
 	return row
@@ -710,11 +710,27 @@ func rowOf(rec core.Record, ncols int) []int {
 	for i := 0; i < ncols; i++ {
 		if i < rec.Count() {
 			if raw := rec.GetRaw(i); raw != "" {
-				row[i] = core.ToInt(rec.GetVal(i))
+				row[i] = decVal(core.ToInt(rec.GetVal(i)))
 			}
 		}
 	}
 	return row
+}
+
+// Model value v >= 2 is stored as the number 100000+v-1 (same order): the packed form of
+// 100001, 100002, ... contains a zero byte, which index keys have to escape.
+func encVal(v int) int {
+	if v < 2 {
+		return v
+	}
+	return 100000 + v - 1
+}
+
+func decVal(x int) int {
+	if x < 2 {
+		return x
+	}
+	return x - 100000 + 1
 }
 
 func recOf(row []int) core.Record {
@@ -723,7 +739,7 @@ func recOf(row []int) core.Record {
 		if v == 0 {
 			rb.AddRaw("")
 		} else {
-			rb.Add(core.IntVal(v))
+			rb.Add(core.IntVal(encVal(v)))
 		}
 	}
 	return rb.Trim().Build()
